@@ -15,7 +15,7 @@ Import ListNotations.
 From BB Require Import BN Brute SpaceFacts TrapFacts PercolateFacts AttractorFacts Diagram Invariants Checks Filter
   Strict PetriNet Control Meta FilterFacts PetriNetFacts TrappistFacts DiagramStruct DiagramSem1 DiagramCache
   DiagramDepth DiagramComplete Termination ControlFacts MetaFacts Candidates StrictFacts MinExpandFacts CandidatesFacts SymbolicTest SymbolicTestFacts Signed ReductionFacts ControlFacts2 Main Blocks BlocksFacts ObsFacts OwnerFacts CandidatesTerm
-  PartialOwner BlockMath BlockComplete ASeeds ASeedsFacts LogChecks SkipRule SkipRuleFacts Names NamesFacts Perm PermFacts SCC SCCFacts SCCStruct ControlFacts3.
+  PartialOwner BlockMath BlockComplete ASeeds ASeedsFacts LogChecks SkipRule SkipRuleFacts Names NamesFacts Perm PermFacts SCC SCCFacts SCCStruct ControlFacts3 SCCTerm FilterSym.
 
 Theorem C12_check_sets_ok : forall (N : net) (S : space) (motifs : list space) (seeds : list state) (sets : list (list state)), check_sets (node_attractors_b N S motifs) seeds sets = VOk -> length sets = length seeds /\ (forall (i : nat) (s : state) (X : list state), nth_error seeds i = Some s -> nth_error sets i = Some X -> (forall t : state, In t X <-> reach N s t) /\ in_attractor N s).
 Proof. exact check_sets_ok. Qed.
@@ -45,6 +45,14 @@ Proof. exact symbolic_test_none. Qed.
 Theorem C12_symbolic_test_meets_spec : forall (fuel : nat) (N : net) (S : space) (pivot : state) (avoid_spaces : list space) (avoid_states : list state) (bools : list bool) (orders : list (list nat)), trap_space N S -> in_space pivot S = true -> let a := {| av_spaces := avoid_spaces; av_states := avoid_states |} in let explicit := filter (in_avoid a) (states_of S) in match symbolic_test fuel N S pivot explicit bools orders with | TNone => attractor_test N pivot a = None | TSome R => exists r : list state, attractor_test N pivot a = Some r /\ (forall t : state, In t R <-> In t r) | TFuel => True end.
 Proof. exact symbolic_test_meets_spec. Qed.
 
+(* the filter run with the model of symbolic_attractor_test (any heuristic tape) returns the same seeds in the same order and the same sets *)
+Theorem C12_filter_with_symbolic_test_agrees : forall (fuel : nat) (N : net) (S : space) (seeds_only : bool) (motifs : list (list (option bool))) (cands : list state) (tapes : sym_tape) (seeds : list state) (sets : option (list (list state))), trap_space N S -> (forall M : list (option bool), In M motifs -> length M = nvars N /\ subspace M S = true) -> (forall c : state, In c cands -> in_space c S = true) -> compute_attractors_sym fuel N S seeds_only motifs cands tapes = Some (seeds, sets) -> seeds = fst (compute_attractors_filter N seeds_only motifs cands) /\ same_sets sets (snd (compute_attractors_filter N seeds_only motifs cands)).
+Proof. exact compute_attractors_sym_agrees. Qed.
+
+(* so the sets it returns are exactly the attractors *)
+Theorem C12_filter_with_symbolic_test_exact : forall (fuel : nat) (N : net) (S : space) (motifs : list space) (cands : list state) (tapes : sym_tape) (seeds : list state) (sets : list (list state)), trap_space N S -> (forall M : space, In M motifs -> trap_space N M /\ subspace M S = true) -> NoDup cands -> (forall c : state, In c cands -> in_space c S = true) -> covers N S motifs cands -> compute_attractors_sym fuel N S false motifs cands tapes = Some (seeds, Some sets) -> one_to_one N S motifs seeds /\ length sets = length seeds /\ (forall (i : nat) (s : state) (X : list state), nth_error seeds i = Some s -> nth_error sets i = Some X -> forall t : state, In t X <-> reach N s t).
+Proof. exact compute_attractors_sym_exact. Qed.
+
 Print Assumptions C12_check_sets_ok.
 Print Assumptions C12_filter_exact.
 Print Assumptions C12_reach_list_sound.
@@ -53,3 +61,5 @@ Print Assumptions C12_attractor_is_class.
 Print Assumptions C12_symbolic_test_some.
 Print Assumptions C12_symbolic_test_none.
 Print Assumptions C12_symbolic_test_meets_spec.
+Print Assumptions C12_filter_with_symbolic_test_agrees.
+Print Assumptions C12_filter_with_symbolic_test_exact.
